@@ -21,6 +21,10 @@ Program recipe (plain JSON)
     path = {"sv": tile number 0..3 | "iv", "casts": [["ms", "L1"|"L3"] | ["lc", layout number | -1]], "def": "top"|"epoch"|"stmt",
             "base": null | n}      base (explicit mode): the casts are chained on the END of the path an earlier epoch used for this root
                                    (n picks which), i.e. derived views of an existing cast value that are read and written later
+    subview_mix (implicit mode, 1|2): whole-buffer uses of a bare root are mixed freely with uses through a plain full-size
+                                   subview of it (["alt", ..] refs, then also allowed as OUTPUTS and after/before writers; 2: the root
+                                   also has a memref.dim user). The subview makes the root's L1 cast unshareable, so set-memory-space
+                                   gives every op its own cast and any interleaving is sound.
     bare_ok (explicit mode): a path without casts uses the bare root even if other epochs reach the root through explicit casts
                                    (set-memory-space then decides per op whether an existing L1 cast may be shared)
     stmt = ["op", kind, [input refs], [output root refs]] | ["for", [stmt]]
@@ -271,6 +275,25 @@ def program(draw, tier="quick", mode=None):
         else:
             stmts = draw(_stmts(nroots, 2 if tier == "thorough" else 1, 3))
         epochs.append(dict(paths=paths, stmts=stmts))
+    mix = 0
+    if not explicit and draw(st.integers(0, 2)) == 0:
+        mix = draw(st.sampled_from([1, 1, 2]))
+        if draw(st.booleans()):
+            # whole / through-subview / whole on root 0, and the mirrored form
+            roots[0].update(big=0, dyn=0, gg=0, glayout=None, ispace=draw(st.sampled_from([None, None, "L3"])),
+                            kind=draw(st.sampled_from(["arg", "arg", "globu", "glob"])))
+            acc = ["linalg_lib", "linalg", "dart_op"]
+            k_ = lambda: draw(st.sampled_from(acc))  # noqa: E731
+            o_ = [draw(st.integers(1, nroots - 1))] if nroots > 1 else []
+            if draw(st.booleans()):
+                tri = [["op", k_(), o_[:1], [0]], ["op", k_(), [["alt", 0, 0]], o_[:1]], ["op", k_(), o_[:1], [0]]]
+            else:
+                tri = [["op", k_(), [0], o_[:1]], ["op", k_(), o_[:1], [["alt", 0, 0]]], ["op", k_(), [0], o_[:1]]]
+            if draw(st.integers(0, 3)) == 0:
+                tri = [["for", tri]]
+            elif draw(st.integers(0, 3)) == 0:
+                tri[1] = ["for", [tri[1]]]
+            epochs[0] = dict(paths=epochs[0]["paths"], stmts=tri)
     template = explicit and draw(st.integers(0, 5)) == 0
     if template:
         # an explicit L1 cast X of root 0 that an accelerator op uses, then views derived from X that are written through,
@@ -306,7 +329,7 @@ def program(draw, tier="quick", mode=None):
                 vis=draw(st.sampled_from(["public", "none"])), a2g=draw(st.sampled_from([0, 0, 1])) if not explicit else 0,
                 dead=0 if template else draw(st.sampled_from([0, 0, 0, 1])),
                 plain=0 if template else draw(st.sampled_from([0, 0, 0, 0, 0, 1])),
-                bare_ok=1 if template else draw(st.sampled_from([0, 0, 1])), trips=trips)
+                bare_ok=1 if template else draw(st.sampled_from([0, 0, 1])), subview_mix=mix, trips=trips)
 
 
 # ------------------------------------------------------------------------------------------------------------------
@@ -447,6 +470,12 @@ def build(r) -> Built:
             if sum(mk) >= 2:
                 b.features.add("dynamic-dim:several")
 
+    if r.get("subview_mix") == 2 and not explicit:
+        for i in range(nroots):
+            nm, rshape, sp = root_val[i]
+            if nm is not None and not roots[i].get("big"):
+                top.append(f'    %dd{i} = "memref.dim"({nm}, %zero) : ({mtype(rshape, elt, rlay[i], sp)}, index) -> index')
+                b.features.add("subview-mix:dim-user")
     loop_args: list[str] = []
     use_count: dict[str, list] = {}  # cast value -> [readers, writers]
 
@@ -694,9 +723,15 @@ def build(r) -> Built:
                 lw[i] = t
         lastw.append(lw)
 
+    def mix_ok(e, i):
+        return (bool(r.get("subview_mix")) and not explicit and pinfo[e][i]["bare"] and not is_dyn(i) and rlay[i] is None
+                and not r.get("plain"))
+
     def alt_ok(e, t, i):
         """May root i be read through another path in top-level statement t of epoch e? Every writer through path A must lie
         in an earlier top-level statement, over the whole life of A's value."""
+        if mix_ok(e, i):
+            return True
         life = pinfo[e][i]["life"]
         if life == "stmt" or lastw[e][i] >= t:
             return False
@@ -766,7 +801,16 @@ def build(r) -> Built:
                     b.features.add("alt-read:chain:dead-tail")
                 if c["how"] == "bare" and l1_chain_on_root[i]:
                     b.features.add("alt-read:bare:beside-explicit-L1-cast")
-        ov_ = [vals[ref_root(v)][:3] for v in outs]
+        ov_ = []
+        for v in outs:
+            i = ref_root(v)
+            if isinstance(v, list) and kind != "test" and mix_ok(e, i):
+                ov_.append(emit_path(i, dict(sv=0, casts=[]), out, pad, iv, force_full=True)[:3])
+                b.features.add("subview-mix:write")
+            else:
+                ov_.append(vals[i][:3])
+        if any(isinstance(x, list) and c is not None and mix_ok(e, ref_root(x)) for x, c in zip(ins, chosen)):
+            b.features.add("subview-mix:read")
         for v in outs:
             a_writes.setdefault(vals[ref_root(v)][0], []).append(gstmt[0])
         if kind == "test":
